@@ -58,6 +58,7 @@ pub open spec fn z64_view(z: Zip64CentralDirectoryEnd) -> Z64Eocd {
 }
 
 // ---- inverse lemmas: what the writer emits, the APPNOTE decoder reads back (C01, C08)
+// @props: C01 C02 C08 -- dec_eocd(enc_eocd(e)) == e at any offset
 pub proof fn lemma_eocd_roundtrip(b: Seq<u8>, p: int, e: Eocd)
     requires 0 <= p, e.comment.len() <= 0xFFFF
     ensures eocd_at(put(b, p, enc_eocd(e)), p), dec_eocd(put(b, p, enc_eocd(e)), p) == e, enc_eocd(e).len() == 22 + e.comment.len()
@@ -82,6 +83,7 @@ pub proof fn lemma_eocd_roundtrip(b: Seq<u8>, p: int, e: Eocd)
     lemma_at_put(b, p, w, 0, 22 + e.comment.len() as int);
     assert(dec_eocd(d, p).comment =~= e.comment);
 }
+// @props: C01 C02 C08 -- dec_z64loc(enc_z64loc(l)) == l
 pub proof fn lemma_z64loc_roundtrip(b: Seq<u8>, p: int, l: Z64Loc)
     requires 0 <= p
     ensures z64loc_at(put(b, p, enc_z64loc(l)), p), dec_z64loc(put(b, p, enc_z64loc(l)), p) == l, enc_z64loc(l).len() == 20
@@ -96,6 +98,7 @@ pub proof fn lemma_z64loc_roundtrip(b: Seq<u8>, p: int, l: Z64Loc)
     lemma_at_put(b, p, w, 16, 4); assert(w.subrange(16, 20) =~= le32(l.n_disks));
     lemma_at_put(b, p, w, 0, 20);
 }
+// @props: C01 C02 C08 -- dec_z64eocd(enc_z64eocd(z)) == z
 pub proof fn lemma_z64eocd_roundtrip(b: Seq<u8>, p: int, z: Z64Eocd)
     requires 0 <= p
     ensures z64eocd_at(put(b, p, enc_z64eocd(z)), p), dec_z64eocd(put(b, p, enc_z64eocd(z)), p) == z, enc_z64eocd(z).len() == 56
